@@ -13,7 +13,7 @@ def declare(S: Spec):
     S.pred("state", [("op", Ref("Operator"))], "op.pipeline._runtime_status.operator_states[op]")
     S.pred("WFop", [("op", Ref("Operator"))],
            "op is not None and op.pipeline is not None and op.pipeline._runtime_status is not None"
-           " and KnownOp(op.pipeline._runtime_status, op) and I1(op.pipeline._runtime_status)")
+           " and KnownOp(op.pipeline._runtime_status, op)")
 
     # Pipeline.runtime_status(): lazily created status; under contract only the already-initialised case
     S.fn(f"{MP}:Pipeline.runtime_status",
@@ -26,24 +26,23 @@ def declare(S: Spec):
     S.fn(f"{MA}:Assignment.__init__",
          params={"ops": List(Ref("Operator")), "cpu": REAL, "ram": REAL, "priority": Enum("Priority"), "pool_id": INT,
                  "pipeline_id": STR, "container_id": Opt(STR), "is_resume": BOOL, "force_run": BOOL},
-         requires=["ops is not None", "all(WFop(op) for op in ops)"],
+         requires=["ops is not None", "all(WFop(op) for op in ops)", "GI1()"],
          ensures=[("nonempty", "len(ops) > 0 and cpu > 0 and ram > 0"),
                   ("all-assigned", "all(state(op) == OperatorState.ASSIGNED for op in ops)"),
                   ("were-assignable", "all(old(state(op)) in ASSIGNABLE_STATES for op in ops)"),
                   ("distinct", "nodup(ops)"),
                   ("others-kept", "all(state(o) == old(state(o)) for o in every('Operator') if o not in ops)"),
                   ("fields", "self.ops is ops and self.cpu == cpu and self.ram == ram and self.priority == priority and self.pool_id == pool_id"),
-                  ("wf-kept", "all(WFop(op) for op in ops)")],
-         raises={"AssertionError": []},
-         modifies=["(contents(op.pipeline._runtime_status.operator_states) for op in ops)",
-                   "(contents(op.pipeline._runtime_status.state_counts) for op in ops)"],
+                  ("I1", "GI1()")],
+         raises={"AssertionError": ["GI1()"]},
+         modifies=["(values(op.pipeline._runtime_status.operator_states) for op in ops)",
+                   "(values(op.pipeline._runtime_status.state_counts) for op in ops)"],
          loops={0: dict(idx="k", header="for op in ops",
                         inv=["all(state(ops[j]) == OperatorState.ASSIGNED for j in range(0, k))",
                              "all(old(state(ops[j])) in ASSIGNABLE_STATES for j in range(0, k))",
                              "nodup(take(ops, k))",
                              "all(state(o) == old(state(o)) for o in every('Operator') if o not in take(ops, k))",
-                             "all(WFop(op) for op in ops)",
-                             "seq(ops) == old(seq(ops))", "k <= len(ops)"])})
+                             "GI1()", "k <= len(ops)"])})
 
     S.fn(f"{MC}:Container.set_current_memory_usage",
          params={"new_memory": REAL},
@@ -68,49 +67,50 @@ def declare2(S: Spec):
            " and 0 <= c._current_op_idx and c._current_op_idx <= len(c.assignment.ops)"
            " and c.ticks_per_second >= 1 and c.tick_length_secs == rdiv(1.0, c.ticks_per_second)")
     S.pred("rest", [("c", Ref("Container"))], "drop(c.assignment.ops, c._current_op_idx)")
-    OPS_MOD = ["(contents(op.pipeline._runtime_status.operator_states) for op in self.assignment.ops)",
-               "(contents(op.pipeline._runtime_status.state_counts) for op in self.assignment.ops)"]
+    OPS_MOD = ["(values(op.pipeline._runtime_status.operator_states) for op in self.assignment.ops)",
+               "(values(op.pipeline._runtime_status.state_counts) for op in self.assignment.ops)"]
 
     def suffix_loop(target):
         return dict(idx="j",
                     inv=[f"all(state(rest(self)[i]) == OperatorState.{target} for i in range(0, j))",
                          "all(state(o) == old(state(o)) for o in every('Operator') if o not in take(rest(self), j))",
-                         "all(WFop(op) for op in self.assignment.ops)",
-                         "j <= len(rest(self))"])
+                         "GI1()", "j <= len(rest(self))"])
 
     S.fn(f"{MC}:Container.kill",
          params={"error": STR},
-         requires=["CWF(self)", "not self._completed",
+         requires=["CWF(self)", "GI1()", "not self._completed",
                    "all(state(op) in (OperatorState.ASSIGNED, OperatorState.RUNNING) for op in rest(self))"],
          ensures=[("suffix-failed", "all(state(op) == OperatorState.FAILED for op in rest(self))"),
                   ("others-kept", "all(state(o) == old(state(o)) for o in every('Operator') if o not in rest(self))"),
                   ("ended", "self._completed and self.error == error and error != '' and self._current_memory == 0"),
                   ("usage-returned", "self.pool.consumed_ram_gb == old(self.pool.consumed_ram_gb) - old(self._current_memory)"),
-                  ("wf-kept", "CWF(self)")],
-         raises={"AssertionError": ["error == ''"]},
+                  ("I1", "GI1()")],
+         raises={"AssertionError": ["error == ''", "GI1()"]},
          modifies=OPS_MOD + ["self._current_memory", "self.pool.consumed_ram_gb", "self._completed", "self.error"],
          loops={0: dict(header="for op in self.operators[self._current_op_idx:]", **suffix_loop("FAILED"))},
          covers={"mid-run": "self._current_op_idx >= 1 and len(self.assignment.ops) >= 3"})
 
     S.fn(f"{MC}:Container.suspend_container",
-         requires=["CWF(self)", "self.assignment.ram > 0",
+         requires=["CWF(self)", "GI1()", "self.assignment.ram > 0",
                    "all(state(op) == OperatorState.ASSIGNED for op in rest(self))"],
-         ensures=[("duration", "self.suspend_ticks == floor(rmul(self.assignment.ram / 20, self.ticks_per_second))"),
+         ensures=[("duration", "self.suspend_ticks == max(1, floor(rmul(self.assignment.ram / 20, self.ticks_per_second)))"),
                   ("counter", "self._suspend_ticks_left == self.suspend_ticks"),
                   ("at-least-one", "self._suspend_ticks_left >= 1"),
+                  ("stops-counting", "self._current_memory == 0 and"
+                                     " self.pool.consumed_ram_gb == old(self.pool.consumed_ram_gb) - old(self._current_memory)"),
                   ("suffix-suspending", "all(state(op) == OperatorState.SUSPENDING for op in rest(self))"),
                   ("others-kept", "all(state(o) == old(state(o)) for o in every('Operator') if o not in rest(self))"),
-                  ("wf-kept", "CWF(self)")],
-         modifies=OPS_MOD + ["self.suspend_ticks", "self._suspend_ticks_left"],
+                  ("I1", "GI1()")],
+         modifies=OPS_MOD + ["self.suspend_ticks", "self._suspend_ticks_left", "self._current_memory", "self.pool.consumed_ram_gb"],
          loops={0: dict(header="for op in self.operators[self._current_op_idx:]", **suffix_loop("SUSPENDING"))})
 
     S.fn(f"{MC}:Container.suspend_container_tick",
-         requires=["CWF(self)", "self._suspend_ticks_left is not None", "self._suspend_ticks_left >= 1",
+         requires=["CWF(self)", "GI1()", "self._suspend_ticks_left is not None", "self._suspend_ticks_left >= 1",
                    "all(state(op) == OperatorState.SUSPENDING for op in rest(self))"],
          ensures=[("counter", "self._suspend_ticks_left == old(self._suspend_ticks_left) - 1"),
                   ("released", "implies(self._suspend_ticks_left == 0, all(state(op) == OperatorState.PENDING for op in rest(self)))"),
                   ("others-kept", "all(state(o) == old(state(o)) for o in every('Operator') if o not in rest(self))"),
                   ("not-yet", "implies(self._suspend_ticks_left != 0, all(state(o) == old(state(o)) for o in every('Operator')))"),
-                  ("wf-kept", "CWF(self)")],
+                  ("I1", "GI1()")],
          modifies=OPS_MOD + ["self._suspend_ticks_left"],
          loops={0: dict(header="for op in self.operators[self._current_op_idx:]", **suffix_loop("PENDING"))})
